@@ -131,6 +131,8 @@ type Link struct {
 	// OnClose, if set, is called (once, on the first Close) outside the lock.
 	OnClose func(l *Link)
 	Opened  []*Stream
+	// AcceptErr is what AcceptStream returns once the link is closed or dead (nil: io.EOF). Set before use.
+	AcceptErr error
 }
 
 // NewLink builds a fake link.
@@ -164,8 +166,21 @@ func (l *Link) AcceptStream() (stream.Stream, stream.OpenOpts, error) {
 	case s := <-l.incoming:
 		return s, stream.OpenOpts{}, nil
 	case <-l.closedCh:
+		if l.AcceptErr != nil {
+			return nil, stream.OpenOpts{}, l.AcceptErr
+		}
 		return nil, stream.OpenOpts{}, io.EOF
 	}
+}
+
+// ClosedAcceptErrors are the errors real links return from AcceptStream once they are gone (remote close, local
+// close, cancelled context, reset); index with any int.
+func ClosedAcceptError(i int) error {
+	errs := []error{io.EOF, context.Canceled, net.ErrClosed, errors.New("connection reset by peer"), io.ErrClosedPipe}
+	if i < 0 {
+		i = -i
+	}
+	return errs[i%len(errs)]
 }
 
 // PushStream delivers an incoming stream to AcceptStream.
